@@ -2661,6 +2661,13 @@ func validateHTTPRedirect(redirect *networking.HTTPRedirect, matches []*networki
 		if redirect.RedirectCode < 300 || redirect.RedirectCode > 399 {
 			return fmt.Errorf("%d is not a valid redirect code, must be 3xx", redirect.RedirectCode)
 		}
+		// Only these codes can be translated (see route.ApplyRedirect); any other 3xx code would
+		// leave the generated Envoy route without an action, and Envoy rejects such a route.
+		switch redirect.RedirectCode {
+		case 301, 302, 303, 307, 308:
+		default:
+			return fmt.Errorf("%d is not a supported redirect code, must be one of 301, 302, 303, 307, 308", redirect.RedirectCode)
+		}
 	}
 	if redirect.Scheme != "" && redirect.Scheme != "http" && redirect.Scheme != "https" {
 		return fmt.Errorf(`invalid redirect scheme, must be "http" or "https"`)
